@@ -49,7 +49,6 @@ package asetypes
 //@   ensures [nil-on-error] err != nil ==> d == nil
 //@ func (*Decimal).String returns (r)
 //@   requires [wf] dec.i != nil ==> 0 <= dec.Scale && dec.Scale <= dec.Precision
-//@   modifies
 //@ func (*Decimal).SetString returns (err)
 //@   requires [int] true
 //@   modifies dec.i
